@@ -90,8 +90,17 @@ def cif_text(models):
     lines = [cif_header(), "loop_"]
     lines += [f"_atom_site.{i}" for i in ITEMS]
     serial = 1
+    # loop order carries no meaning in mmCIF: multi-model entries are written
+    # with the polymer atoms of all models first and the hetero atoms of all
+    # models afterwards (the rows of one model are NOT contiguous)
+    rows = []
     for mi, atoms in enumerate(models, start=MODEL0 if len(models) > 1 else 1):
         for a in atoms:
+            rows.append((0 if a["record"] == "ATOM" or len(models) == 1 else 1,
+                         mi, a))
+    rows.sort(key=lambda r: (r[0], r[1]))
+    for _grp, mi, a in rows:
+        if True:
             x, y, z = a["xyz"]
             elem = next((c for c in a["name"] if c.isalpha()), "X")
             row = [a["record"], serial, elem, q(a["name"]),
